@@ -336,6 +336,49 @@ C17_V(S, S2, c, e, r) ==
                m.to \subseteq ({u} \cup (IF m.kind = "recover" THEN Secondary(u) ELSE {})))
 
 -----------------------------------------------------------------------------
+(* C18 - backend failures never panic, fake success or weaken security state.   *)
+(* Evaluated on observed steps in which an injected failure was hit; r0 is the   *)
+(* specification's fault-free step from the same pre-state (the reference for    *)
+(* "reports success").                                                           *)
+
+\* (mailed tokens by presence: a mail that failed to go out leaves a stored token the harness never learns)
+SecView(S) == [db |-> [u \in Pids |-> [ex |-> S.db[u].ex, pw |-> S.db[u].pw, conf |-> S.db[u].conf, cTok |-> S.db[u].cTok # 0,
+                                         rTok |-> S.db[u].rTok # 0, otps |-> S.db[u].otps, rcg |-> S.db[u].rcg,
+                                         rcLeft |-> S.db[u].rcLeft, totp |-> S.db[u].totp, sms |-> S.db[u].sms]],
+               rmOwners |-> {t.o : t \in S.rm}]
+
+SuccessLike(r) == (r.class = "redirect" /\ r.loc \in {"loginOK", "redir", "confirmOK", "recoverOK", "registerOK", "oauth2OK",
+                                                        "logoutOK", "totpConfirm", "smsConfirm", "totpSetup", "smsSetup"})
+                  \/ (r.class = "page" /\ r.loc \in {"totpConfirmOK", "smsConfirmOK", "totpRemoveOK", "smsRemoveOK",
+                                                      "recovery2fa", "otpAdd"})
+                  \/ r.class = "ok"
+
+\* the one-time credential a step logs in with, as <<kind, id>> (or <<>>)
+OneTimeCred(S, c, e) ==
+  IF e.act = "OtpLoginPost" /\ e.tok >= 1 THEN <<"otp", e.tok>>
+  ELSE IF e.act \in {"TotpValidate", "SmsValidate"} /\ e.rc >= 1 THEN <<"rc", e.g * 100 + e.rc>>
+  ELSE IF RmAuth(S, c, e) THEN <<"rm", S.cookie[e.b]>>
+  ELSE <<>>
+
+FaultViolations(S, S2, c, e, r, r0) ==
+  V("C18.noPanic", r.class # "panic")
+  \cup V("C18.noFakeSuccess",
+         \* (an injected "not found" legitimately sends a handler down its not-found branch)
+         e.faultE = "io" /\ SuccessLike(r) /\ r.class = r0.resp.class /\ r.loc = r0.resp.loc
+            => SecView(S2) = SecView(r0.st))
+  \cup V("C18.noSessionOnUnsavedConsumption",
+         IsReq(e) /\ Changed(S, S2, e.b, "uid") /\ S2.sess[e.b].uid # NONE /\ OneTimeCred(S, c, e) # <<>>
+            => OneTimeCred(S, c, e) \notin Live(S2))
+  \cup V("C18.onlyInvalidates", \A x \in S.spent : x \notin Live(S2))
+  \cup V("C18.nothingUnissuedBecomesLive",
+         \* (id -1: a stored secret nobody was ever shown, e.g. saved before the page failed to render)
+         \A x \in Live(S2) \ Live(S) : x[1] \in Kinds /\ (x[1] = "rc" \/ x[2] < 0 \/ x[2] > S.iss[x[1]]))
+
+\* general clauses that must hold whether or not a backend call fails
+FaultTolerantClauses == {"C01.sessionOnlyByCredential", "C01.otherBrowserUntouched", "C02.primaryOnlyParks",
+                         "C03.noLoginWhileBlocked", "C13.changeAuthorised"}
+
+-----------------------------------------------------------------------------
 
 PropViolations(S, S2, c, e, r) ==
   C01_V(S, S2, c, e) \cup C02_V(S, S2, c, e) \cup C03_V(S, S2, c, e, r) \cup C04_V(S, S2, c, e)
